@@ -1,6 +1,105 @@
 """Source extractors: syntactic side conditions regenerated from /repo's text on every run.
+They are NOT solver-decided; each is reported in the evidence as a syntactic side condition.
 Each returns dict(name, state in pass|fail|inconclusive, detail)."""
+import glob
 import os
 import re
 
 REPO = "/repo"
+
+
+def _strip_tests(text):
+    """Drop everything from the first `#[cfg(test)]\nmod` to the end (test modules are last)."""
+    m = re.search(r"#\[cfg\(test\)\]\s*(#\[[^\]]*\]\s*)*mod \w+", text)
+    return text[: m.start()] if m else text
+
+
+def _enclosing_fns(path, pattern):
+    """-> list of (fn name, line no) for every non-test line matching pattern."""
+    text = _strip_tests(open(path).read())
+    out = []
+    cur = None
+    for n, line in enumerate(text.splitlines(), 1):
+        s = line.strip()
+        if s.startswith("//"):
+            continue
+        m = re.search(r"\bfn\s+([a-zA-Z0-9_]+)", line)
+        if m:
+            cur = m.group(1)
+        if re.search(pattern, line):
+            out.append((cur, n))
+    return out
+
+
+def _census(name, pattern, expected, what):
+    found = {}
+    for path in sorted(glob.glob(os.path.join(REPO, "ntp-proto/src/algorithm/**/*.rs"), recursive=True)):
+        for fn, n in _enclosing_fns(path, pattern):
+            found.setdefault(os.path.relpath(path, REPO), []).append(fn)
+    flat = sorted((p, f) for p, fs in found.items() for f in fs)
+    if flat == sorted(expected):
+        return dict(name=name, state="pass", detail="%s only in %s (syntactic census of ntp-proto/src/algorithm, non-test code)" % (what, flat))
+    return dict(name=name, state="inconclusive",
+                detail="%s call sites changed: found %s, the harnesses drive %s - harness set must be revisited" % (what, flat, sorted(expected)))
+
+
+def step_clock_call_sites():
+    return _census("step_clock_call_sites", r"\.step_clock\(",
+                   [("ntp-proto/src/algorithm/kalman/mod.rs", "steer_offset")], "step_clock()")
+
+
+def set_frequency_call_sites():
+    return _census("set_frequency_call_sites", r"\.set_frequency\(",
+                   [("ntp-proto/src/algorithm/kalman/mod.rs", "steer_frequency")], "set_frequency()")
+
+
+def in_startup_only_cleared():
+    path = os.path.join(REPO, "ntp-proto/src/algorithm/kalman/mod.rs")
+    text = _strip_tests(open(path).read())
+    assigns = re.findall(r"in_startup\s*=\s*(\w+)", text)
+    inits = re.findall(r"in_startup:\s*(\w+)", text)
+    ok = all(a == "false" for a in assigns)
+    if ok:
+        return dict(name="in_startup_only_cleared", state="pass",
+                    detail="in_startup assigned only `false` (%d sites), initialised as %s" % (len(assigns), inits))
+    return dict(name="in_startup_only_cleared", state="inconclusive", detail="in_startup assignments: %s" % assigns)
+
+
+def daemon_server_call_shape():
+    """C16/C17: the daemon must hand Server::handle a response buffer exactly as long as the request."""
+    path = os.path.join(REPO, "ntpd/src/daemon/server.rs")
+    text = _strip_tests(open(path).read())
+    i = text.find(".server.handle(")
+    seg = ""
+    if i >= 0:
+        j = i + len(".server.handle(")
+        depth, k = 1, j
+        while k < len(text) and depth:
+            depth += {"(": 1, ")": -1}.get(text[k], 0)
+            k += 1
+        seg = text[j:k - 1]
+    norm = re.sub(r"\s+", " ", seg).strip()
+    args = [a.strip() for a in norm.rstrip(",").split(", ")]
+    req = [a for a in args if re.fullmatch(r"&\w+\[\.\.(\w+)\]", a)]
+    out = [a for a in args if re.fullmatch(r"&mut \w+\[\.\.(\w+)\]", a)]
+    same = bool(req and out and re.search(r"\.\.(\w+)\]", req[0]).group(1) == re.search(r"\.\.(\w+)\]", out[0]).group(1))
+    if same:
+        return dict(name="daemon_server_call_shape", state="pass", detail="daemon calls handle(%s)" % norm)
+    return dict(name="daemon_server_call_shape", state="inconclusive",
+                detail="could not recognise a request-sized response buffer in the daemon's call: handle(%s)" % norm)
+
+
+def key_file_mode():
+    """C27: the key file is created with mode 0o600 (syntactic: not solver-decided)."""
+    path = os.path.join(REPO, "ntpd/src/daemon/nts_key_provider.rs")
+    text = _strip_tests(open(path).read())
+    m = re.search(r"OpenOptions::new\(\)(.*?)\.open\(", text, re.S)
+    if not m:
+        return dict(name="key_file_mode", state="inconclusive", detail="OpenOptions chain not found")
+    chain = re.sub(r"\s+", "", m.group(1))
+    calls = re.findall(r"\.(\w+)\(([^)]*)\)", chain)
+    d = dict(calls)
+    ok = d.get("mode") == "0o600" and d.get("create") == "true" and d.get("write") == "true" and d.get("truncate") == "true"
+    if ok:
+        return dict(name="key_file_mode", state="pass", detail="key file opened with %s (syntactic check, not solver-decided)" % chain)
+    return dict(name="key_file_mode", state="fail", detail="key file OpenOptions chain is %s; expected create/truncate/write with mode 0o600" % chain)
